@@ -89,9 +89,11 @@ def run_variant(exe, work, tag, progs, variant):
         rcs.append(rc)
     else:
         for n, _ in progs:
-            rc, out, err = C.run(pre + comp_args(exe, extra) + [n + ".as"], cwd=d, env=env, timeout=600)
+            rc, out, err = C.run(pre + comp_args(exe, extra) + [n + ".as"], cwd=d, env=env, timeout=240)
             texts.append(out + err)
             rcs.append(rc)
+    if 124 in rcs:
+        return variant, None, "", rcs          # time limit: inconclusive, not compared
     msgs = "\n".join(texts)
     msgs = msgs.replace(d + "/", "")
     msgs = re.sub(r"^\s*$\n", "", msgs, flags=re.M)
@@ -106,8 +108,9 @@ def run(rep, tier):
     progs = programs(rnd, nprog)
     work = C.scratch("c08")
     variants = [("base",), ("repeat",), ("noaslr",), ("nogc",), ("gc",), ("cwd",), ("env", 5), ("env", 40)]
-    ks = [(2, 0), (3, 1), (7, 3), (50, 0), (1000, 7)] if tier == "quick" else \
-        [(k, j) for k in (1, 2, 3, 5, 7, 17, 50, 100, 333, 1000) for j in sorted({0, k // 2, k - 1})]
+    # cost of a forced-collection compile on this machine: k=1000 ~2.5 s, k=200 ~12 s, k=50 ~55 s, k=7 > 5 min
+    ks = [(5000, 0), (1000, 7), (300, 1)] if tier == "quick" else \
+        [(k, j) for k in (40, 100, 333, 1000, 5000) for j in sorted({0, k // 2, k - 1})]
     variants += [("forcegc", k, j) for k, j in ks]
     # programs are handled in groups so that one slow forced-GC run does not serialise everything
     groups = [progs[i:i + 3] for i in range(0, len(progs), 3)]
@@ -124,6 +127,7 @@ def run(rep, tier):
             results[(gi, v)] = f.result()
     ncmp = 0
     diffs = 0
+    timeouts = []
     samples = []
     for gi, g in enumerate(groups):
         base = results[(gi, ("base",))]
@@ -132,10 +136,15 @@ def run(rep, tier):
         for (gj, v), r in results.items():
             if gj != gi or v == ("base",):
                 continue
+            if r[1] is None or base[1] is None:
+                timeouts.append([gi, list(v)])
+                continue
             ncmp += 1
             bad_out = [k for k in base[1] if base[1][k] != r[1][k]]
             # the batched run numbers messages across files: compare message texts without the serial number
-            norm = (lambda t: re.sub(r"#\d+ ", "# ", t)) if v[0] == "batched" else (lambda t: t)
+            if v[0] == "batched" and any(rc != 0 for rc in base[3]):
+                continue      # a fatal error ends a batch: only error-free groups are compared batched
+            norm = (lambda t: re.sub(r"(?m)^\w+\.as:\n?", "", re.sub(r"#\d+ ", "# ", t))) if v[0] == "batched" else (lambda t: t)
             bad_msg = norm(base[2]) != norm(r[2])
             if bad_out or bad_msg or base[3] != r[3] and v[0] != "batched":
                 diffs += 1
@@ -143,6 +152,8 @@ def run(rep, tier):
                 what = "outputs differ under perturbation %s: %s%s" % (
                     v, bad_out[:6], " and the message stream differs" if bad_msg else "")
                 key = "nondet:%s:%s" % (v[0], ",".join(sorted({b.split('.')[-1] for b in bad_out})) or "messages")
+                if v[0] == "batched" and bad_out and not bad_msg:
+                    key = "nondet:batched:outputs"
                 rep.violation(what, {"programs": names, "variant": list(v), "differing": bad_out,
                                      "base_msgs": base[2][-800:], "variant_msgs": r[2][-800:]}, key=key)
         if len(samples) < 3:
@@ -151,7 +162,7 @@ def run(rep, tier):
                 rule="one evaluation = compiling a group of <=3 corpus programs under one perturbation; non-trivial = compared "
                      "against the base run of the same group (all outputs + message stream)",
                 samples=samples, perturbations=[list(v) for v in variants] + [["batched"]], programs=len(progs),
-                differing_comparisons=diffs)
+                differing_comparisons=diffs, inconclusive_time_limit=timeouts)
     rep.assume("setarch -R switches ASLR off; the default run has ASLR on",
                "ALDOR_VERIF_GC hook forces collections inside the compiler (guarded by -DALDOR_VERIF)",
                "outputs compared: .ao .fm .c .lsp .java produced at -Q2 and the diagnostics text")
